@@ -103,6 +103,8 @@ def run_canary(ctx, mod):
     F = factsmod.Facts(path, u)
     c2 = Ctx(ctx.prop, ctx.tier)
     c2.unit = "canary"
+    from .rules.C12 import _FN
+    _FN["F"] = F
     for fn in spec["check"]:
         fn(c2, F)
     keys = sorted(c2.violations)
@@ -140,6 +142,8 @@ def run_check(prop, tier, unit_plan, module_name, level="other", min_instances=N
             ctx.fn_instances += len(F.bodies)
             if F.opaque:
                 ctx.note("unit %s has %d opaque nodes (%s)" % (u.label(), F.opaque, F.raw.get("opaque_kinds")))
+            from .rules.C12 import _FN        # expression printer's callee-name table: always the unit being checked
+            _FN["F"] = F
             mod.check(ctx, F)
             del F
         ctx.unit = None
